@@ -1,7 +1,7 @@
 from checks import durab_common as dc
 
 SPEC = dc.spec(
-    "C02", ["C02_guarded", "C02_exact", "C02_refuted", "C02_witness_multiplicity"], "Durab.c02_prop", 4, 40,
+    "C02", ["C02_guarded", "C02_exact", "C02_refuted", "C02_witness_multiplicity"], "Durab.c02_prop", 4, 24,
     level_text="Coq theorem C02_guarded (+C02_exact): for EVERY schedule, block-length function and crash prefix outside a "
                "continuation-write window, after recovery every fixed slot holds EXACTLY the last committed value (none if never "
                "written: no phantoms; the in-flight transaction is all-or-nothing, decided by its checksum record), and every variable "
